@@ -31,10 +31,10 @@ func strV(s string) *Value {
 	}
 	return &Value{T: "str", C: cp}
 }
-func boolRV(b bool) RV     { return RV{T: "bool", Bv: b} }
-func numRV(s string) RV    { return RV{T: "num", B: bytesToInts([]byte(s))} }
-func idRV(s string) RV     { return RV{T: "id", S: s} }
-func trefRV(s string) RV   { return RV{T: "tref", S: s} }
+func boolRV(b bool) RV         { return RV{T: "bool", Bv: b} }
+func numRV(s string) RV        { return RV{T: "num", B: bytesToInts([]byte(s))} }
+func idRV(s string) RV         { return RV{T: "id", S: s} }
+func trefRV(s string) RV       { return RV{T: "tref", S: s} }
 func rule(n string, v RV) Rule { return Rule{N: n, V: v} }
 
 var keyPool = []string{"a", "b", "c", "id", "name", "x", "y", "é", "k1"}
@@ -342,6 +342,69 @@ func init() {
 						calls++
 						w.Write(map[string]interface{}{"op": "validate", "schema": root, "env": Env{}, "opt": false, "doc": docAbs, "ok": got.OK,
 							"code": got.Code, "kind": got.Kind, "text": renderSchema(root).Text, "doctext": fmt.Sprintf("%s nested %d deep under any", kind, depth)})
+					}
+				}
+			}
+			// long arrays: n equal items with one odd one at position `at` (one abstract value in the trace); sizes around the limits of small
+			// counters. The position of the error is the offset of the odd item (C17 judges it from the same lines).
+			for _, n := range []int{3, 255, 256, 257, 1000, 65535, 65536, 70000} {
+				for _, at := range []int{0, 1, 2, 255, 256, 257, 65536, -1} { // -1: the last index
+					a := at
+					if a == -1 {
+						a = n
+					}
+					if a > n {
+						continue
+					}
+					for si, root := range []Node{
+						{T: "arr", Items: []Node{{T: "lit", V: numV("1")}}},
+						{T: "arr", Items: []Node{{T: "lit", V: numV("1")}, {T: "lit", V: strV("s")}}},
+						{T: "arr", Items: []Node{{T: "lit", V: numV("1")}}, Rules: []Rule{rule("maxItems", numRV("65536"))}},
+						{T: "arr", Items: []Node{{T: "lit", V: numV("1")}}, Rules: []Rule{rule("maxItems", numRV("255")), rule("minItems", numRV("1"))}}} {
+						item, odd := "7", "true"
+						if si == 1 {
+							item, odd = `"x"`, "7" // [1, "s"]: the first item is a number, every further one a string
+						}
+						var sb strings.Builder
+						sb.WriteByte('[')
+						oddAt := -1
+						for i := 1; i <= n; i++ {
+							if i > 1 {
+								sb.WriteByte(',')
+							}
+							switch {
+							case i == a:
+								oddAt = sb.Len()
+								sb.WriteString(odd)
+							case si == 1 && i == 1:
+								sb.WriteString("7")
+							default:
+								sb.WriteString(item)
+							}
+						}
+						sb.WriteByte(']')
+						sch, _, err := buildSchema(root, Env{}, false, true)
+						if err != nil || sch.Check() != nil {
+							fatal("a long-array probe schema is not accepted")
+						}
+						got := guard(func() error { return sch.Validate(jdoc.New("doc", sb.String())) })
+						calls++
+						itemAbs := map[string]interface{}{"t": "num", "b": []int{55}}
+						oddAbs := map[string]interface{}{"t": "bool", "bv": true}
+						if si == 1 {
+							itemAbs, oddAbs = map[string]interface{}{"t": "str", "c": []int{120}}, map[string]interface{}{"t": "num", "b": []int{55}}
+						}
+						docAbs := map[string]interface{}{"t": "reparr", "n": n, "item": itemAbs, "odd": oddAbs, "at": a}
+						if si == 1 && a != 1 {
+							// position 1 holds the number 7, not the repeated string: it is the odd one unless another index is
+							if a == 0 {
+								docAbs["at"], docAbs["odd"] = 1, map[string]interface{}{"t": "num", "b": []int{55}}
+							} else {
+								continue // two exceptions do not fit the pattern
+							}
+						}
+						w.Write(map[string]interface{}{"op": "validate", "schema": root, "env": Env{}, "opt": false, "doc": docAbs, "ok": got.OK,
+							"code": got.Code, "kind": got.Kind, "pos": got.Pos, "oddpos": oddAt, "text": renderSchema(root).Text, "doctext": fmt.Sprintf("%d items, the odd one at %d", n, a)})
 					}
 				}
 			}
